@@ -346,6 +346,8 @@ impl<'a> Gen<'a> {
         } else if roll < 55 {
             // 1..5 clauses: 2 and 3 are the common case, 1, 4 and 5 the corners
             let n = match self.w.below(10) {
+                // a disjunction without clauses (it fails) once in a while, else a single clause
+                0 if self.w.chance(1, 6) => 0,
                 0 => 1,
                 1 | 2 => 4,
                 3 => 5,
